@@ -4,7 +4,7 @@
 import glob, json, os, subprocess, sys, shutil
 ENV = dict(os.environ, GOFLAGS="-mod=mod", GOPROXY="off", GOSUMDB="off", GOTOOLCHAIN="local")
 def sh(cmd, **kw):
-    return subprocess.run(cmd, shell=True, text=True, capture_output=True, env=kw.pop("env", ENV), **kw)
+    return subprocess.run(cmd, shell=True, text=True, errors="replace", capture_output=True, env=kw.pop("env", ENV), **kw)
 sel = sys.argv[1:]
 wt, out = "/tmp/vreseed/wt", "/tmp/vreseed/out"
 sh("git -C /repo worktree remove --force %s; rm -rf /tmp/vreseed; mkdir -p %s; git -C /repo worktree prune" % (wt, out))
